@@ -21,6 +21,7 @@ type PackagesFacade struct {
 	fileSet       *token.FileSet
 	files         map[string]*ast.File         // filename → *ast.File
 	fileToPackage map[string]*packages.Package // filename → owning *packages.Package
+	globbedFiles  map[string]struct{}          // filenames matched by the configured globs
 
 	packagesCache  map[string]*packages.Package // pkgPath → *packages.Package
 	packageToFiles map[string][]*ast.File       // pkgPath → []*ast.File
@@ -50,8 +51,14 @@ func (facade *PackagesFacade) FSet() *token.FileSet {
 func (facade *PackagesFacade) GetAllSourceFiles() []*ast.File {
 	// Map iteration order is random; walk the files by path so that receivers (and everything
 	// derived from their order) are discovered in the same order on every run
+	//
+	// Only files matched by the globs are source files. Packages loaded later on, to resolve a type,
+	// register all of their files; those must not start contributing controllers or receivers
 	fileNames := make([]string, 0, len(facade.files))
 	for fileName := range facade.files {
+		if _, isGlobbed := facade.globbedFiles[fileName]; !isGlobbed {
+			continue
+		}
 		fileNames = append(fileNames, fileName)
 	}
 	slices.Sort(fileNames)
@@ -108,6 +115,8 @@ func (facade *PackagesFacade) initWithGlobs() error {
 			pkgPathsToLoad.Add(filepath.Dir(pkgPath))
 		}
 	}
+
+	facade.globbedFiles = matchedAbsPaths
 
 	err := facade.loadPackagesFiltered(pkgPathsToLoad.ToSlice(), matchedAbsPaths)
 	if err != nil {
